@@ -52,6 +52,7 @@ type linkResult struct {
 	Err   string     `json:"err,omitempty"`
 	Panic bool       `json:"panic,omitempty"`
 	Decls []declDump `json:"decls,omitempty"`
+	Stage string     `json:"stage,omitempty"` // of a failure: compile | link
 }
 
 func maybeWorker() {
@@ -82,9 +83,15 @@ func maybeWorker() {
 }
 
 func doLink(j linkJob) (res linkResult) {
+	// stage: "compile" until the archives exist (parsing, type checking, analysis,
+	// translation: dead-code elimination has not run yet), "link" afterwards
+	stage := "compile"
 	defer func() {
 		if r := recover(); r != nil {
 			res = linkResult{Err: fmt.Sprintf("compiler panic: %v", r), Panic: true}
+		}
+		if res.Err != "" {
+			res.Stage = stage
 		}
 	}()
 	if e := os.Chdir(j.Dir); e != nil {
@@ -107,6 +114,7 @@ func doLink(j linkJob) (res linkResult) {
 		return linkResult{Err: e.Error()}
 	}
 	// 1. the normal link
+	stage = "link"
 	var buf bytes.Buffer
 	if e := compiler.WriteProgramCode(deps, compiler.DefaultFilter(&buf), s.GoRelease()); e != nil {
 		return linkResult{Err: e.Error()}
